@@ -9,6 +9,8 @@
    where [dirs] are the directories whose counts the structure block checked plus, for a run
    that scanned directories, the baseline keys whose path no longer exists. A run restricted by
    --files, --diff/--staged, sub-path roots or cut short by fail-fast simply has fewer results.
+   Keys are path_key of the path (fix D08) and a loaded baseline is re-keyed: [view disk] is the
+   file as a run sees it; a file written by the fixed code is its own view ([ostable]).
    The model is that of the tree WITH fixes/D11-ratchet-evaluated-set.patch; before it
    C10_stale_only_if_evaluated_and_resolved and C10_strict_fails_only_for_resolved were refuted
    for partial runs (witness in known_findings/C10.json, section fixed). *)
@@ -18,13 +20,14 @@ From SG Require Import Check.Results Check.ExitCode Check.BMap Check.Ratchet Che
 Import ListNotations.
 Open Scope N_scope.
 
-(* every run without --update-baseline leaves a baseline file that is a subset of the one
-   before: each entry afterwards was there before, unchanged; every flag set, ratchet mode,
-   result list (so: every restriction of the evaluated set) *)
+(* every run without --update-baseline either leaves the baseline file untouched or leaves a
+   subset of the baseline as loaded: each entry afterwards was there before, unchanged; every
+   flag set, ratchet mode, result list (so: every restriction of the evaluated set) *)
 Theorem C10_subset :
-  forall fl R dirs disk k e,
+  forall fl R dirs disk,
   f_update fl = None ->
-  olookup k (o_disk (check_step fl R dirs disk)) = Some e -> olookup k disk = Some e.
+  o_disk (check_step fl R dirs disk) = disk \/
+  (forall k e, olookup k (o_disk (check_step fl R dirs disk)) = Some e -> olookup k (view disk) = Some e).
 Proof. exact subset_entries. Qed.
 Print Assumptions C10_subset.
 
@@ -33,7 +36,8 @@ Theorem C10_no_add_without_update :
   forall fl R dirs disk,
   f_update fl = None ->
   (disk = None -> o_disk (check_step fl R dirs disk) = None) /\
-  (forall k e, olookup k (o_disk (check_step fl R dirs disk)) = Some e -> olookup k disk = Some e).
+  (o_disk (check_step fl R dirs disk) = disk \/
+   forall k e, olookup k (o_disk (check_step fl R dirs disk)) = Some e -> olookup k (view disk) = Some e).
 Proof. exact no_add_without_update. Qed.
 Print Assumptions C10_no_add_without_update.
 
@@ -42,6 +46,7 @@ Theorem C10_auto_fixpoint :
   forall fl R dirs b,
   f_baseline fl = true -> f_update fl = None ->
   effective_ratchet (f_ratchet_cli fl) (f_ratchet_cfg fl) = Some RAuto ->
+  stable_bl (rekey b) ->
   let out1 := check_step fl R dirs (Some b) in
   let out2 := check_step fl R dirs (o_disk out1) in
   o_stale out2 = [] /\ o_disk out2 = o_disk out1 /\ o_results out2 = o_results out1 /\
@@ -54,7 +59,7 @@ Print Assumptions C10_auto_fixpoint.
 Theorem C10_stale_only_if_evaluated_and_resolved :
   forall fl R dirs disk k,
   In k (o_stale (check_step fl R dirs disk)) ->
-  In k (okeys disk) /\
+  In k (okeys (view disk)) /\
   In k (map key_of R ++ dirs) /\
   (forall r, In r R -> key_of r = k -> violating r = false).
 Proof. exact stale_evaluated_resolved. Qed.
@@ -64,6 +69,7 @@ Print Assumptions C10_stale_only_if_evaluated_and_resolved.
 Theorem C10_removed_only_if_stale :
   forall fl R dirs disk k e,
   f_update fl = None -> o_exit (check_step fl R dirs disk) <> 2 ->
+  ostable disk ->
   olookup k disk = Some e ->
   olookup k (o_disk (check_step fl R dirs disk)) = None ->
   In k (o_stale (check_step fl R dirs disk)).
@@ -79,17 +85,17 @@ Theorem C10_strict_fails_only_for_resolved :
   ((exists r, In r (o_results (check_step fl R dirs disk)) /\ is_failed r = true) \/
    (f_wae fl = true /\ exists r, In r R /\ is_warning r = true) \/
    (effective_ratchet (f_ratchet_cli fl) (f_ratchet_cfg fl) = Some RStrict /\
-    exists k, In k (okeys disk) /\ In k (map key_of R ++ dirs) /\
+    exists k, In k (okeys (view disk)) /\ In k (map key_of R ++ dirs) /\
               (forall r, In r R -> key_of r = k -> violating r = false))).
 Proof. exact strict_fails_only_for_resolved. Qed.
 Print Assumptions C10_strict_fails_only_for_resolved.
 
 (* ---- non-vacuity and witnesses *)
-Definition ka : key := [46;47;97].
-Definition kb : key := [46;47;98].
+Definition ka : key := [97].
+Definition kb : key := [98].
 Definition bl2 : baseline := [(ka, EContent 12 [1]); (kb, EContent 12 [2])].
-Definition pa : result := mkResult ka Content Passed 3 10 [4].     (* ./a resolved *)
-Definition fb : result := mkResult kb Content Failed 12 10 [2].    (* ./b still over *)
+Definition pa : result := mkResult [46;47;97] Content Passed 3 10 [4].     (* ./a resolved *)
+Definition fb : result := mkResult [46;47;98] Content Failed 12 10 [2].    (* ./b still over *)
 Definition auto_fl : flags := mkFlags true None (Some RAuto) None false false false.
 Definition strict_fl : flags := mkFlags true None None (Some RStrict) false false false.
 
